@@ -78,6 +78,7 @@ type Case struct {
 	Base  Base     `json:"base"`
 	Mut   Mut      `json:"mut"`
 	Extra []string `json:"extra,omitempty"` // additional (unstored) addresses to query, hex
+	Shape string   `json:"shape,omitempty"` // single | trunc | crcfix | multi | crafted | intact
 }
 
 // OpRes is the observed outcome of one operation.
